@@ -1,12 +1,12 @@
 #!/bin/bash
-# confirm_mutant.sh <name> <dir-with patch.diff + demo_*.rs + notes.json>
+# confirm_mutant.sh <name> <dir-with patch.diff + demo_*.rs + notes.json> [base-rev, default HEAD]
 # Confirms in a scratch worktree of /repo HEAD: patch applies, workspace tests pass with it,
 # demo fails with it and passes without it. Writes <dir>/confirm.log; prints a one-line verdict.
 set -u
-name=$1; src=$2
+name=$1; src=$2; base=${3:-HEAD}
 wt=/tmp/mutconfirm/$name
 rm -rf "$wt"; mkdir -p /tmp/mutconfirm
-git -C /repo worktree add -q --detach "$wt" HEAD || { echo "$name: worktree failed"; exit 2; }
+git -C /repo worktree add -q --detach "$wt" "$base" || { echo "$name: worktree failed"; exit 2; }
 log=$src/confirm.log; : > "$log"
 cd "$wt"
 demo=$(ls "$src"/demo_*.rs | head -1)
@@ -18,6 +18,8 @@ if head -3 "$demo" | grep -q "^// .*\btests/demo" ; then
   [ -n "$hint" ] && dest=$hint
 fi
 export CARGO_NET_OFFLINE=true
+# feature flags the demonstration asks for in its header comment (e.g. --features block-boundary)
+feat=$(head -5 "$demo" | grep -oE -- "--features[ =][A-Za-z0-9_,-]+" | head -1)
 verdict=ok
 if ! git apply --check "$src/patch.diff" 2>>"$log"; then echo "$name: PATCH DOES NOT APPLY"; verdict=bad; fi
 if [ $verdict = ok ]; then
@@ -28,11 +30,11 @@ if [ $verdict = ok ]; then
   dir=$(dirname $(dirname "$dest")); [ "$dir" = "." ] && dir=.
   tname=$(basename "$dest" .rs)
   echo "== demo with patch" >> "$log"
-  if (cd "$dir" && cargo test --offline --test "$tname") >> "$log" 2>&1; then echo "$name: DEMO PASSES WITH PATCH (should fail)"; verdict=bad; else echo "demo-with-patch: fails (expected)" >> "$log"; fi
+  if (cd "$dir" && cargo test --offline $feat --test "$tname") >> "$log" 2>&1; then echo "$name: DEMO PASSES WITH PATCH (should fail)"; verdict=bad; else echo "demo-with-patch: fails (expected)" >> "$log"; fi
   git checkout -q -- .
   echo "== demo without patch" >> "$log"
-  if (cd "$dir" && cargo test --offline --test "$tname") >> "$log" 2>&1; then echo "demo-without-patch: pass (expected)" >> "$log"; else echo "$name: DEMO FAILS WITHOUT PATCH"; verdict=bad; fi
+  if (cd "$dir" && cargo test --offline $feat --test "$tname") >> "$log" 2>&1; then echo "demo-without-patch: pass (expected)" >> "$log"; else echo "$name: DEMO FAILS WITHOUT PATCH"; verdict=bad; fi
 fi
 cd /
 git -C /repo worktree remove --force "$wt"
-[ $verdict = ok ] && echo "$name: CONFIRMED (dest=$dest)"
+[ $verdict = ok ] && echo "$name: CONFIRMED (dest=$dest, base=$base)"
